@@ -391,7 +391,10 @@ pub fn new_runner(cases: u32, seed: [u8; 32]) -> TestRunner {
     let config = Config {
         cases,
         failure_persistence: None,
-        max_shrink_iters: 20_000,
+        max_shrink_iters: 4_000,
+        // shrinking is bounded by wall clock as well (ms): a minimal case is a convenience, the
+        // first failing case is already a valid replay
+        max_shrink_time: 45_000,
         max_global_rejects: 1 << 20,
         max_local_rejects: 1 << 16,
         ..Config::default()
